@@ -282,7 +282,12 @@ def splrep(x, y, s=0, k=3, **kw):
     if len(xs) <= k:
         raise TypeError('m > k must hold')
     eng = engine()
-    ident = eng.uniq()
+    # a spline is determined by its data: the same points give the same symbols
+    key = (k, str(s), tuple(str(_zr(v)) for v in xs), tuple(str(_zr(v)) for v in ys))
+    ids = eng.__dict__.setdefault('_spline_ids', {})
+    if key not in ids:
+        ids[key] = len(ids) + 1
+    ident = ids[key]
     knots = [xs[0]] * (k + 1) + xs[2:-2] * (1 if k == 3 else 0) + (xs[1:-1] if k == 1 else []) + [xs[-1]] * (k + 1)
     tck = TCK((knots, None, k))
     tck_info = {'x': xs, 'y': ys, 's': s, 'k': k, 'id': ident}
@@ -484,8 +489,48 @@ def quad(f, a, b, *args, **kw):
         res = -symx.wrap(I(_zr(b), _zr(a)))
     val = f(xi)
     log.append(QuadRecord(key, a, b, xi, val, res))
+    nonneg = getattr(eng, 'quad_nonneg', None)
+    if nonneg is not None and nonneg(key):
+        # the harness vouches that this integrand is non-negative everywhere (stated among
+        # its assumptions): the integral over an increasing range is then non-negative
+        if a <= b:
+            eng.add_axiom(symx.zbool(res >= 0))
+        else:
+            eng.add_axiom(symx.zbool(res <= 0))
     return (res, Fraction(0))
 
 
 class integrate_mod:
     quad = staticmethod(quad)
+
+
+# ---- yaml -----------------------------------------------------------------------------------
+class YamlShim:
+    """safe_load is the real one (parameter files are concrete text); dump records the
+    object handed over, so that the oracle reads structure and (symbolic) numbers back."""
+
+    def __init__(self):
+        import yaml as _yaml
+        self._yaml = _yaml
+        self.dumped = []
+
+    def safe_load(self, stream):
+        return _lift_floats(self._yaml.safe_load(stream))
+
+    def dump(self, data, stream=None, **kw):
+        self.dumped.append(data)
+        if stream is not None:
+            stream.write('<yaml:%d>' % (len(self.dumped) - 1))
+        return None
+
+
+def _lift_floats(obj):
+    """Parsed YAML numbers -> exact rationals of their decimal text is not available after
+    parsing; the double is converted exactly (R-mode works on the doubles' exact values)."""
+    if isinstance(obj, dict):
+        return {k: _lift_floats(v) for k, v in obj.items()}
+    if isinstance(obj, list):
+        return [_lift_floats(v) for v in obj]
+    if isinstance(obj, float) and nplite.float_mode() == 'R':
+        return Fraction(obj)
+    return obj
